@@ -120,7 +120,7 @@ static int dump_x86sig() {
     printf("inst %u %x %x %u %u\n", id, unsigned(ci._flags), unsigned(ci._avx512_flags), unsigned(ci._inst_signature_index), unsigned(ci._inst_signature_count));
     {
       uint32_t e = InstDB::_inst_info_table[id]._encoding;
-      uint32_t k = e == InstDB::kEncodingVexRvm_Lx_2xK ? 1u : e == InstDB::kEncodingX86Op ? 2u : e == InstDB::kEncodingX86Movabs ? 3u :
+      uint32_t k = (id == Inst::kIdVcvtsi2sd || id == Inst::kIdVcvtusi2sd) ? 7u : (id == Inst::kIdVcmpsd || id == Inst::kIdVcmpss) ? 8u : e == InstDB::kEncodingVexRvm_Lx_2xK ? 1u : e == InstDB::kEncodingX86Op ? 2u : e == InstDB::kEncodingX86Movabs ? 3u :
                    e == InstDB::kEncodingX86EnqcmdMovdir64b ? 4u : e == InstDB::kEncodingX86Imul ? 6u :
                    (e == InstDB::kEncodingX86Arith || e == InstDB::kEncodingX86Bt || e == InstDB::kEncodingX86Crc || e == InstDB::kEncodingX86IncDec ||
                     e == InstDB::kEncodingX86Ins || e == InstDB::kEncodingX86M_GPB || e == InstDB::kEncodingX86M_GPB_MulDiv ||
